@@ -61,6 +61,12 @@ def jobs(tier, seed):
                 add(move, False, 3, fixed=slice_fixed(pref, 3, 2, False), slice=sname, cost=40)
             if tier == "thorough" or sname == "point0+alpha":
                 add(move, True, 3, fixed=slice_fixed(pref, 3, 2, True), slice=sname, cost=120)
+    # two samples (first sample's data and alpha symbolic, second sample at the anchor)
+    for move in ("dp", "prg"):
+        add(move, False, 3, fixed=slice_fixed(("alpha", "x0_0", "x1_0", "x2_0"), 3, 2, False, D=2), slice="sample0+alpha", cost=40, D=2)
+        out[-1]["name"] += "-D2"
+        add(move, True, 2, fixed=slice_fixed(("alpha", "x0_0", "x1_0"), 2, 2, True, D=2), slice="sample0+alpha", cost=10, D=2)
+        out[-1]["name"] += "-D2"
     # mixed per-point outlier probabilities: point 0 carries the `outlier_prob == 0` sentinel (its prior factor is 1 wherever it sits)
     for move in ("dp", "prg"):
         add(move, True, 2, fixed=slice_fixed(("x", "alpha"), 2, 2, True), slice="data+alpha", cost=5, no_prior=[0])
@@ -100,13 +106,14 @@ def setup(job, vals=None):
     from phyclone.smc.utils import RootPermutationDistribution
     import phyclone.run as prun
     n, G, outl = job["n"], job["G"], job["outliers"]
+    D = job.get("D") or 1
     sym = vals is None
     fixed = job.get("fixed") or {}
     dps = []
     if sym:
         alpha = Lin(V(Fraction(fixed["alpha"]))) if "alpha" in fixed else Lin(V.var("alpha"))
         for i in range(n):
-            dp = sym_dp(i, 1, G, fixed=fixed)
+            dp = sym_dp(i, D, G, fixed=fixed)
             if outl and i in (job.get("no_prior") or []):
                 pass                                   # DataPoint defaults: outlier_prob = 0 (sentinel), outlier_prob_not = 1
             elif outl and job.get("p_one"):
@@ -121,7 +128,7 @@ def setup(job, vals=None):
     else:
         alpha = float(Fraction(vals.get("alpha", 1)))
         for i in range(n):
-            dp = float_dp(i, 1, G, vals)
+            dp = float_dp(i, D, G, vals)
             if outl and job.get("p_one"):
                 dp.outlier_prob, dp.outlier_prob_not = 0.0, -math.inf
             elif outl and i not in (job.get("no_prior") or []):
@@ -148,7 +155,7 @@ def setup(job, vals=None):
             kernel = cls(td, rng, outlier_proposal_prob=(0.1 if outl else 0), perm_dist=RootPermutationDistribution())
             sampler = ParticleGibbsSubtreeSampler(kernel, rng, num_particles=job["N"], resample_threshold=thr)
     forests = all_forests(n, outliers=outl)
-    states = [(f.key(), f.to_tree(dps, (1, G))) for f in forests]
+    states = [(f.key(), f.to_tree(dps, (D, G))) for f in forests]
     return dict(dps=dps, td=td, sampler=sampler, states=states, forests=forests)
 
 
@@ -231,7 +238,7 @@ def work(job):
 
     def cex(kind, model=None, **kw):
         c = {"kind": kind, "finding_key": fk + (":" + kind if kind != "not-invariant" else ""),
-             "job": {k: job.get(k) for k in ("move", "kernel", "wiring", "outliers", "thr", "N", "n", "G", "fixed", "no_prior")}}
+             "job": {k: job.get(k) for k in ("move", "kernel", "wiring", "outliers", "thr", "N", "n", "G", "fixed", "no_prior", "D", "p_one")}}
         c["values"] = model_values(model) if model is not None else {}
         c.update(kw)
         res["cex"].append(c)
